@@ -286,9 +286,8 @@ struct SqpkFileOperationData {
 #[derive(PartialEq, Debug)]
 #[brw(big)]
 struct SqpkTargetInfo {
-    #[brw(pad_before = 3)]
-    #[brw(pad_size_to = 2)]
-    platform: Platform, // Platform is read as a u16, but the enum is u8
+    #[brw(pad_before = 4)]
+    platform: Platform, // Platform is a big-endian u16, but the enum is u8: skip its high byte too
     region: Region,
     #[br(map = read_bool_from::<u16>)]
     #[bw(map = write_bool_as::<u16>)]
